@@ -4,7 +4,9 @@
 package main
 
 import (
+	"fmt"
 	"net"
+	"os"
 	"strings"
 	"sync"
 	"time"
@@ -24,8 +26,11 @@ type pathComm struct {
 	casePol  string          // keep | lower | upper | alt
 	bits     string          // keep | strip | drop
 	types    map[uint16]bool // answered record types (nil = all)
-	limit    int             // answers whose packed size exceeds it are dropped (0 = none)
+	limit    int             // answer size limit in octets of the packed answer (0 = none)
+	trunc    bool            // false: a larger answer is dropped; true: trailing answer records are cut until it fits (TC set)
 	exchange int
+	hsEx     int             // exchanges that are not data packets ('c' requests): what the negotiation itself costs
+	bothWays int             // packet requests that carried upstream data and whose answer (carrying downstream data) exceeded the limit
 	maxEx    int
 	overrun  bool
 }
@@ -94,6 +99,9 @@ func (s *pathComm) SendAndReceive(m *dns.Msg, timeout *time.Duration) (*dns.Msg,
 		return nil, 0, net.ErrClosed
 	}
 	s.exchange++
+	if len(m.Question) > 0 && len(m.Question[0].Name) > 0 && m.Question[0].Name[0] != 'c' && m.Question[0].Name[0] != 'C' {
+		s.hsEx++
+	}
 	if s.maxEx > 0 && s.exchange > s.maxEx {
 		s.overrun = true
 		s.closed = true
@@ -123,7 +131,28 @@ func (s *pathComm) SendAndReceive(m *dns.Msg, timeout *time.Duration) (*dns.Msg,
 		return nil, 0, smux.ErrTimeout // the server cannot send this answer
 	}
 	if s.limit > 0 && len(rb) > s.limit {
-		return nil, 0, smux.ErrTimeout
+		if n := m.Question[0].Name; len(n) > 100 && (n[0] == 'c' || n[0] == 'C') {
+			s.bothWays++
+		}
+		if !s.trunc {
+			return nil, 0, smux.ErrTimeout
+		}
+		// a truncating forwarder: trailing answer records are cut until the answer fits, and TC is set
+		cut := *r
+		cut.Answer = append([]dns.RR{}, r.Answer...)
+		for len(rb) > s.limit && len(cut.Answer) > 0 {
+			cut.Answer = cut.Answer[:len(cut.Answer)-1]
+			cut.Truncated = true
+			if rb, err = cut.Pack(); err != nil {
+				return nil, 0, smux.ErrTimeout
+			}
+		}
+		if len(rb) > s.limit {
+			return nil, 0, smux.ErrTimeout
+		}
+		if os.Getenv("VERIF_C11_DEBUG") != "" {
+			fmt.Fprintf(os.Stderr, "CUT ex=%d qname=%d answers %d -> %d\n", s.exchange, len(m.Question[0].Name), len(r.Answer), len(cut.Answer))
+		}
 	}
 	a := &dns.Msg{}
 	if err := a.Unpack(rb); err != nil {
@@ -150,13 +179,22 @@ var qtypeByName = map[string]uint16{"NULL": 10, "PRIVATE": 65000, "TXT": 16, "SR
 func init() {
 	opTimeout["c11"] = 170 * time.Second
 	// c11 <case keep|lower|upper|alt> <bits keep|strip|drop> <types all|T1,T2,..> <limit> <seed>
-	//  -> hs ok qt <n> up <code> down <code> edns <0/1> upmtu <n> frag <n> ex <exchanges> xfer ok | xfer bad <what>
-	//   | hs fail ex <n> | hs nonterm ex <n> | hs panic <site>
+	//   limit: answer size in octets; 0 = none; negative = enforced by cutting trailing answer records (a truncating forwarder)
+	//   seed >= 1000: after the handshake also every transfer length up to one upstream fragment;
+	//   seed >= 2000: after the handshake data flows both ways in the same exchanges (upstream fragments while downstream fragments are queued)
+	//  -> hs ok qt <n> up <code> down <code> edns <0/1> lazy <0/1> upmtu <n> frag <n> ex <exchanges> hsex <exchanges of the negotiation>
+	//        srvup <code> srvdown <code> srvfrag <n> srvlazy <0/1> oversized <n> srvpanics <n> xfer ok | xfer bad <what>
+	//        (oversized: packet requests with upstream data whose answer exceeded the limit - data both ways in one exchange)
+	//   | hs fail why <querytype|version|fragsize|other> ex <n> hsex <n> | hs nonterm ex <n> | hs panic <site>
 	register("c11", func(a []Tok) []Tok {
 		sc := &fakeServerComm{}
 		srv := sadns.NewServerDnsListener(testDomain, sc)
 		defer sc.Close()
-		pc := &pathComm{server: sc, from: addrN(3), casePol: a[0].W, bits: a[1].W, limit: int(a[3].I), maxEx: 1500}
+		lim := int(a[3].I)
+		pc := &pathComm{server: sc, from: addrN(3), casePol: a[0].W, bits: a[1].W, limit: lim, maxEx: 1500}
+		if lim < 0 {
+			pc.limit, pc.trunc = -lim, true
+		}
 		if a[2].W != "all" {
 			pc.types = map[uint16]bool{}
 			for _, t := range strings.Split(a[2].W, ",") {
@@ -167,7 +205,7 @@ func init() {
 		serverPanics = 0
 		cl, err := sadns.NewClientDnsConnection(testDomain, pc)
 		if err != nil {
-			return []Tok{TW("hs"), TW("fail"), TW("ex"), TI(0)}
+			return []Tok{TW("hs"), TW("fail"), TW("why"), TW("other"), TW("ex"), TI(0), TW("hsex"), TI(0)}
 		}
 		acc := make(chan net.Conn, 4)
 		go func() {
@@ -181,13 +219,23 @@ func init() {
 		}()
 		hsErr := cl.Handshake()
 		pc.mu.Lock()
-		ex, over := pc.exchange, pc.overrun
+		ex, hsex, over := pc.exchange, pc.hsEx, pc.overrun
 		pc.mu.Unlock()
 		if over {
 			return []Tok{TW("hs"), TW("nonterm"), TW("ex"), TIn(ex)}
 		}
 		if hsErr != nil {
-			return []Tok{TW("hs"), TW("fail"), TW("ex"), TIn(ex), TW("srvpanics"), TIn(serverPanics)}
+			why := "other"
+			msg := hsErr.Error()
+			switch {
+			case strings.Contains(msg, "No suitable DNS query type"):
+				why = "querytype"
+			case strings.Contains(msg, "couldn't connect to server"):
+				why = "version"
+			case strings.Contains(msg, "Found no accepted fragment size"), strings.Contains(msg, "this probably won't work"), strings.Contains(msg, "corruption at byte"):
+				why = "fragsize"
+			}
+			return []Tok{TW("hs"), TW("fail"), TW("why"), TW(why), TW("ex"), TIn(ex), TW("hsex"), TIn(hsex), TW("srvpanics"), TIn(serverPanics)}
 		}
 		defer cl.Close()
 		var sconn net.Conn
@@ -197,22 +245,73 @@ func init() {
 			return []Tok{TW("hs"), TW("ok-noaccept"), TW("ex"), TIn(ex)}
 		}
 		qt, up, down, edns, upmtu, frag := sadns.VerifNegotiated(cl)
-		out := []Tok{TW("hs"), TW("ok"), TW("qt"), TIn(qt), TW("up"), TIn(up), TW("down"), TIn(down), TW("edns"), TBool(edns), TW("upmtu"), TIn(upmtu), TW("frag"), TIn(frag), TW("ex"), TIn(ex)}
-		// transfers over the same path: sizes from 1 byte to several fragments, escape-heavy and 8-bit content
+		sup, sdown, sfrag, slazy := sadns.VerifUserOptions(sconn)
+		out := []Tok{TW("hs"), TW("ok"), TW("qt"), TIn(qt), TW("up"), TIn(up), TW("down"), TIn(down), TW("edns"), TBool(edns),
+			TW("lazy"), TBool(sadns.VerifClientLazy(cl)), TW("upmtu"), TIn(upmtu), TW("frag"), TIn(frag), TW("ex"), TIn(ex), TW("hsex"), TIn(hsex),
+			TW("srvup"), TIn(sup), TW("srvdown"), TIn(sdown), TW("srvfrag"), TIn(int(sfrag)), TW("srvlazy"), TBool(slazy)}
+		// transfers over the same path: sizes from 1 byte to several fragments, escape-heavy and 8-bit content; the fragment the
+		// server really cuts with (srvfrag) and, on a size-limited path, lengths around the limit (a download larger than the limit
+		// must arrive intact)
 		pc.mu.Lock()
 		pc.maxEx = pc.exchange + 4000
 		pc.mu.Unlock()
 		bad := ""
-		sizes := []int{1, 2, 57, 200, upmtu, upmtu + 1, 3*upmtu + 5, frag, frag + 1, 2*frag + 3}
+		sf := int(sfrag)
+		sizes := []int{1, 2, 57, 200, upmtu, upmtu + 1, 3*upmtu + 5, frag, frag + 1, 2*frag + 3, sf, sf + 1, 2*sf + 3}
+		if pc.limit > 0 {
+			sizes = append(sizes, pc.limit-1, pc.limit, pc.limit+1, 2*pc.limit+3)
+		}
 		// every length up to one upstream fragment (each meets every label and dot position of the name layout), both directions
 		// (only for cases that ask for it - seed >= 1000 -, a sweep costs some hundred transfers)
-		for n := 3; seed >= 1000 && n < upmtu && n < 260; n++ {
+		for n := 3; seed >= 1000 && seed < 2000 && n < upmtu && n < 260; n++ {
 			sizes = append(sizes, n)
 		}
+		transfer := func(dir string, data []byte) string {
+			n := len(data)
+			var w, r net.Conn = cl, sconn
+			if dir == "down" {
+				w, r = sconn, cl
+			}
+			done := make(chan error, 1)
+			go func() { _, err := w.Write(data); done <- err }()
+			got := make([]byte, 0, n)
+			deadline := time.Now().Add(15 * time.Second)
+			buf := make([]byte, 65536)
+			for len(got) < n && time.Now().Before(deadline) {
+				var b []byte
+				if dir == "up" {
+					b = sadns.VerifAvailable(r)
+				} else {
+					b = sadns.VerifClientAvailable(cl, buf)
+				}
+				if len(b) == 0 {
+					time.Sleep(300 * time.Microsecond)
+					continue
+				}
+				got = append(got, b...)
+				if len(got) > n || firstDiff(got, data[:len(got)]) != -1 {
+					break // wrong octets will not get right later
+				}
+			}
+			if d := firstDiff(got, data); d != -1 {
+				if os.Getenv("VERIF_C11_DEBUG") != "" {
+					return fmt.Sprintf("%s@%d:got%d:diff%d", dir, n, len(got), d)
+				}
+				return dir
+			}
+			select {
+			case <-done:
+			case <-time.After(5 * time.Second):
+				return dir + "-write-hangs"
+			}
+			return ""
+		}
+		seenSize := map[int]bool{}
 		for i, n := range sizes {
-			if n <= 0 || n > 20000 {
+			if n <= 0 || n > 20000 || seenSize[n] {
 				continue
 			}
+			seenSize[n] = true
 			data := patBytes(seed+i, n)
 			if i%2 == 1 {
 				esc := []byte("\\\".();@ '\x00\xff\x80.")
@@ -221,38 +320,7 @@ func init() {
 				}
 			}
 			for _, dir := range []string{"up", "down"} {
-				var w, r net.Conn = cl, sconn
-				if dir == "down" {
-					w, r = sconn, cl
-				}
-				done := make(chan error, 1)
-				go func() { _, err := w.Write(data); done <- err }()
-				got := make([]byte, 0, n)
-				deadline := time.Now().Add(15 * time.Second)
-				buf := make([]byte, 65536)
-				for len(got) < n && time.Now().Before(deadline) {
-					var b []byte
-					if dir == "up" {
-						b = sadns.VerifAvailable(r)
-					} else {
-						b = sadns.VerifClientAvailable(cl, buf)
-					}
-					if len(b) == 0 {
-						time.Sleep(300 * time.Microsecond)
-						continue
-					}
-					got = append(got, b...)
-				}
-				if firstDiff(got, data) != -1 {
-					bad = dir
-					break
-				}
-				select {
-				case <-done:
-				case <-time.After(5 * time.Second):
-					bad = dir + "-write-hangs"
-				}
-				if bad != "" {
+				if bad = transfer(dir, data); bad != "" {
 					break
 				}
 			}
@@ -260,9 +328,76 @@ func init() {
 				break
 			}
 		}
-		if bad != "" {
-			return append(out, TW("xfer"), TW("bad"), TW(bad), TW("srvpanics"), TIn(serverPanics))
+		// data both ways in the same exchanges: the server has full fragments queued while the client sends full fragments
+		if bad == "" && seed >= 2000 {
+			bad = c11Both(cl, sconn, upmtu, sf, seed)
 		}
-		return append(out, TW("xfer"), TW("ok"), TW("srvpanics"), TIn(serverPanics))
+		pc.mu.Lock()
+		both := pc.bothWays
+		pc.mu.Unlock()
+		if bad != "" {
+			return append(out, TW("oversized"), TIn(both), TW("srvpanics"), TIn(serverPanics), TW("xfer"), TW("bad"), TW(bad))
+		}
+		return append(out, TW("oversized"), TIn(both), TW("srvpanics"), TIn(serverPanics), TW("xfer"), TW("ok"))
 	})
+}
+
+// c11Both: the server writes several full downstream fragments and, while they wait in its queue, the client writes several
+// full upstream fragments: queries that carry a whole upstream fragment then get answers that carry a whole downstream fragment.
+func c11Both(cl *sadns.ClientDnsConnection, sconn net.Conn, upmtu, sfrag, seed int) string {
+	if upmtu <= 0 || sfrag <= 0 {
+		return ""
+	}
+	downData := patBytes(seed+101, 6*sfrag)
+	upData := patBytes(seed+202, 12*upmtu)
+	dDone, uDone := make(chan error, 1), make(chan error, 1)
+	go func() { _, err := sconn.Write(downData); dDone <- err }()
+	for i := 0; i < 2000 && sadns.VerifUserOutLen(sconn) == 0; i++ {
+		time.Sleep(100 * time.Microsecond)
+	}
+	go func() { _, err := cl.Write(upData); uDone <- err }()
+	gotUp, gotDown := []byte{}, []byte{}
+	buf := make([]byte, 65536)
+	deadline := time.Now().Add(20 * time.Second)
+	for (len(gotUp) < len(upData) || len(gotDown) < len(downData)) && time.Now().Before(deadline) {
+		b1 := sadns.VerifAvailable(sconn)
+		b2 := sadns.VerifClientAvailable(cl, buf)
+		gotUp = append(gotUp, b1...)
+		gotDown = append(gotDown, b2...)
+		// wrong octets will not get right later
+		if len(gotUp) > len(upData) || firstDiff(gotUp, upData[:len(gotUp)]) != -1 {
+			return "both-up"
+		}
+		if len(gotDown) > len(downData) || firstDiff(gotDown, downData[:len(gotDown)]) != -1 {
+			return "both-down"
+		}
+		if len(b1) == 0 && len(b2) == 0 {
+			select {
+			case err := <-uDone:
+				if err != nil {
+					return "both-up-write-error"
+				}
+				uDone <- nil
+			default:
+			}
+			time.Sleep(300 * time.Microsecond)
+		}
+	}
+	if firstDiff(gotUp, upData) != -1 {
+		return "both-up"
+	}
+	if firstDiff(gotDown, downData) != -1 {
+		return "both-down"
+	}
+	for _, ch := range []chan error{uDone, dDone} {
+		select {
+		case err := <-ch:
+			if err != nil {
+				return "both-write-error"
+			}
+		case <-time.After(5 * time.Second):
+			return "both-write-hangs"
+		}
+	}
+	return ""
 }
